@@ -168,6 +168,39 @@ def F19():
     return None
 
 
+def F20():
+    """C10: a write error while answering an inbound packet -> on_disconnect twice."""
+    w = World()
+    c = mk_client(w)
+    got = []
+    c.on_disconnect = lambda cl, ud, flags, rc, props: got.append(rc.value)
+    connect(c, w)
+    s = w.cur()
+    s.outscript.append(("error",))
+    s.feed(wire.enc_publish(4, b"a", b"p", qos=2, mid=7))
+    c.loop_read()
+    if len(got) != 1:
+        return f"on_disconnect called {len(got)} times for one lost connection: {got}"
+    return None
+
+
+def F21():
+    """C02: clean session, a QoS 2 message still waiting in the queue gets DUP=1 on its first transmission."""
+    w = World()
+    c = mk_client(w)
+    c.max_inflight_messages_set(1)
+    connect(c, w)
+    c.publish("t", b"x", 2)
+    c.publish("t", b"y", 2)       # queued behind the window, never handed to a connection
+    c.reconnect()
+    w.cur().feed(wire.enc_connack(4))
+    pump_read(c)
+    second = [d for d in pkts(w.cur()) if d["type"] == "PUBLISH" and d["mid"] == 2]
+    if second and second[0]["dup"]:
+        return "first transmission of the queued QoS 2 message mid=2 carries DUP=1"
+    return None
+
+
 def F8():
     """C06: WebSocket, transport accepts 5 bytes of a frame -> packet dropped from the queue."""
     w = World()
@@ -358,7 +391,7 @@ def F18():
 
 
 ALL = {"F1": F1, "F2": F2, "F3": F3, "F4": F4, "F4b": F4b, "F5": F5, "F6": F6, "F7": F7, "F8": F8, "F9": F9,
-       "F10": F10, "F19": F19, "F11": F11, "F12": F12, "F13": F13, "F15": F15, "F16": F16, "F17": F17, "F18": F18}
+       "F10": F10, "F19": F19, "F20": F20, "F21": F21, "F11": F11, "F12": F12, "F13": F13, "F15": F15, "F16": F16, "F17": F17, "F18": F18}
 
 
 def run(name):
